@@ -120,3 +120,37 @@ package trace
 //@   prop -
 //@   pure
 //@   trusted "context.Value lookup is not modelled; treated as a deterministic function of ctx"
+
+// ======================================================================== C03 IDs from hex (trace.go)
+// decodeHex: accepted only if EVERY byte of h is a lower-case hex digit (the loop walks runes; an accepted rune is one byte);
+// the decoding itself is encoding/hex's. TraceIDFromHex / SpanIDFromHex: exactly 32 / 16 characters, lower-case hex, non-zero.
+//@ spec lowerHexB(c byte) bool = ('0' <= c && c <= '9') || ('a' <= c && c <= 'f')
+//@ func decodeHex(h string, b []byte) (err error)
+//@   prop C03
+//@   overflow assumed
+//@   modifies elems(b)
+//@   ensures err == nil ==> forall i in 0 .. len(h) : lowerHexB(h[i])
+//@   assert@call DecodeString#1 : $arg0 == h
+//@   loop#1 invariant forall i in 0 .. $off : lowerHexB(h[i])
+//@ func TraceIDFromHex(h string) (t TraceID, err error)
+//@   prop C03
+//@   overflow assumed
+//@   unchecked frame the result array is filled through a slice of it
+//@   ensures len(h) != 32 ==> err != nil
+//@   ensures err == nil ==> len(h) == 32 && (forall i in 0 .. 32 : lowerHexB(h[i])) && t.IsValid()
+//@   assert@call decodeHex#1 : $arg0 == h && len($arg1) == 16
+//@ func SpanIDFromHex(h string) (s SpanID, err error)
+//@   prop C03
+//@   overflow assumed
+//@   unchecked frame the result array is filled through a slice of it
+//@   ensures len(h) != 16 ==> err != nil
+//@   ensures err == nil ==> len(h) == 16 && (forall i in 0 .. 16 : lowerHexB(h[i])) && s.IsValid()
+//@   assert@call decodeHex#1 : $arg0 == h && len($arg1) == 8
+//@ func (tf TraceFlags) IsSampled() (r bool)
+//@   prop C03 C09
+//@   ensures r == (tf & 1 == 1)
+//@ func (tf TraceFlags) WithSampled(sampled bool) (r TraceFlags)
+//@   prop C03 C09
+//@   mode bv
+//@   ensures sampled ==> r == tf | 1
+//@   ensures !sampled ==> r == tf - (tf & 1)
